@@ -184,3 +184,15 @@ func without(l []string, drop string) []string {
 	}
 	return out
 }
+
+// hostileCaller overwrites byte slices the API handed out earlier (encodings of the identity and of G, Order):
+// returned slices are the caller's, so this must never influence a later call.
+func hostileCaller() {
+	for _, b := range [][]byte{secp256k1.NewElement().Encode(), secp256k1.NewElement().EncodeUncompressed(), secp256k1.Base().Encode(),
+		secp256k1.Base().EncodeUncompressed(), secp256k1.NewElement().XCoordinate(), secp256k1.Order()} {
+		b = b[:cap(b)]
+		for i := range b {
+			b[i] ^= 0xa5
+		}
+	}
+}
